@@ -43,6 +43,7 @@ let parse_effect (t : string) : effect =
   | ["unsub"; o; tok] -> EUnsubscribe (ni o, zi tok)
   | ["makestale"; e] -> EMakeStale (ni e)
   | ["invalidate"; e] -> EInvalidateExpert (ni e)
+  | ["setmaxheight"; n] -> ESetMaxHeight (zi n)
   | ["stabilise"] -> EStabilise
   | ["panic"] -> EPanic
   | _ -> fail ("effect: " ^ t)
